@@ -206,6 +206,7 @@ type Case struct {
 	H       HdrS   `json:"h"`
 	Verdict int    `json:"verdict"`
 	Err     string `json:"err,omitempty"`
+	Before  []Case `json:"before,omitempty"` // headers the same Server verified earlier (replay runs them first)
 
 	ext *hdrExt // set by the header-path cases: frame fields of the header under verification
 }
@@ -370,6 +371,8 @@ func lenientHash(pb []byte) common.Hash {
 	}
 	return common.Hash(sha256.Sum256(pb[64:129]))
 }
+
+const whatHistory = "C01-verdict-depends-on-process-history"
 
 const whatVrfDiffers = "C01-library-VRF-verifier-differs-from-the-reference"
 
@@ -1388,6 +1391,7 @@ func oracleAccept(c *Case, b *built) []string {
 // ---- generators ---------------------------------------------------------------
 
 type gen struct {
+	plainAll  bool
 	forceCert bool
 	plain     bool // an honest header, one vote short of the quorum, no forgery
 	bigNo     int
@@ -1919,6 +1923,9 @@ func (g *gen) one(res *vf.Result) Case {
 		mode := r.Intn(8)
 		if g.plain {
 			mode = 7 // one vote short of the quorum, nothing else wrong
+			if g.plainAll {
+				mode = 0 // every entitled member votes
+			}
 		}
 		switch mode {
 		case 0, 1:
@@ -2320,10 +2327,30 @@ func runGen(seed uint64, n int, outDir, corpusDir, variant string) {
 	emit := func(c Case) {
 		c.Variant = variant
 		c.Verdict, c.Err = 0, ""
+		if strings.HasPrefix(c.Comment, "corpus:") {
+			for i := range c.Before { // what the same Server verified earlier
+				p := c.Before[i]
+				observe(&p)
+			}
+		}
 		t0 := time.Now()
 		b := observe(&c)
 		if os.Getenv("C01_TIMING") != "" && len(c.LB.Vals) > 1000 {
 			fmt.Fprintln(os.Stderr, "observe big", time.Since(t0), "votes", len(c.H.Val.Votes), len(c.H.Cert.Votes))
+		}
+		// determinism: the verdict is a function of the input, not of what this process verified
+		// before - every 9th case (and every history-dependent one) is verified again by a fresh Server
+		freshDiffers := ""
+		if (count%9 == 4 && len(c.LB.Vals) < 1000) || strings.HasPrefix(c.Comment, "history:") || len(c.Before) > 0 {
+			c2 := c
+			aged := server
+			server, _ = ucon.NewVRFServer(nil)
+			observe(&c2)
+			server = aged
+			res.Count("fresh_server_rerun")
+			if c2.Verdict != c.Verdict {
+				freshDiffers = fmt.Sprintf("long-lived verifier: %s, fresh verifier: %s", verdictNames[c.Verdict], verdictNames[c2.Verdict])
+			}
 		}
 		if count > 0 {
 			sb.WriteString(";\n")
@@ -2341,7 +2368,12 @@ func runGen(seed uint64, n int, outDir, corpusDir, variant string) {
 		if c.Verdict == 0 && c.H.Number%params.ACoCHTFrequency == 0 {
 			res.Count("accept:certificate_round")
 		}
-		for _, w := range oracle(&c, b) {
+		ows := oracle(&c, b)
+		if freshDiffers != "" {
+			ows = append(ows, whatHistory)
+			c.Err = freshDiffers
+		}
+		for _, w := range ows {
 			res.Count("oracle:" + w)
 			if perKey[w] < 2 {
 				perKey[w]++
@@ -2408,6 +2440,14 @@ func runGen(seed uint64, n int, outDir, corpusDir, variant string) {
 	}
 	gen0 := count
 	for count < n {
+		if variant == "fixed" && (count-gen0)%120 == 30 {
+			// process history: one Server verifies a header of a validator set, then a header of the set in
+			// which a member has withdrawn and registered again under the same main key with another BLS key
+			for _, hc := range g.rekeyed(res) {
+				emit(hc)
+			}
+			continue
+		}
 		if variant == "fixed" && (count-gen0)%170 == 60 {
 			emit(g.bigDup(res)) // a handful per run: look-back sets beyond the cache capacities
 			continue
@@ -2467,7 +2507,24 @@ func runReplay(file string) {
 		fmt.Println(err)
 		os.Exit(2)
 	}
+	for i := range c.Before {
+		p := c.Before[i]
+		observe(&p)
+		fmt.Printf("earlier header %d: verdict=%d (%s)\n", i+1, p.Verdict, verdictNames[p.Verdict])
+	}
 	bl := observe(&c)
+	if len(c.Before) > 0 {
+		c2 := c
+		aged := server
+		server, _ = ucon.NewVRFServer(nil)
+		observe(&c2)
+		server = aged
+		if c2.Verdict != c.Verdict {
+			fmt.Printf("verdict=%d (%s); a fresh verifier gives %d (%s)\n", c.Verdict, verdictNames[c.Verdict], c2.Verdict, verdictNames[c2.Verdict])
+			fmt.Println("ORACLE VIOLATION:", whatHistory)
+			os.Exit(1)
+		}
+	}
 	fmt.Printf("verdict=%d (%s) %s\n", c.Verdict, verdictNames[c.Verdict], c.Err)
 	fmt.Printf("header hash %s\n", hex.EncodeToString(bl.hash[:]))
 	ws := oracle(&c, bl)
